@@ -170,7 +170,7 @@ def run_check(prop, tier, master, n_runs=None, budget_s=None):
     from .. import propchecks
 
     t0 = time.time()
-    budget_s = budget_s or (150 if tier == "quick" else 2400)
+    budget_s = core.budget(tier, budget_s)
     nproc = n_runs or (32 if tier == "quick" else 320)
     res, errors, skipped = common.run_machine_batch("sim.machines.c16", f"C16-{tier}", master, nproc, 60 if tier == "quick" else 200, 30, budget_s * 0.5)
     summ, viol = common.summarise(res)
